@@ -6,10 +6,11 @@ cd /verif/seeded || exit 2
 seeds="$@"; [ -z "$seeds" ] && seeds=$(ls)
 for s in $seeds; do
   prop=${s%%-*}
-  if ! git -C /repo apply --check /verif/seeded/$s/patch.diff 2>/dev/null; then
-    if ! git -C /repo apply --3way --check /verif/seeded/$s/patch.diff 2>/dev/null; then echo "$s: patch does not apply to current /repo"; continue; fi
-  fi
-  git -C /repo apply /verif/seeded/$s/patch.diff 2>/dev/null || git -C /repo apply --3way /verif/seeded/$s/patch.diff
+  # patch.diff is against the pinned commit; patch.current.diff (if present) is the same change ported
+  # to the current tree after later fix commits touched the same lines
+  pf=/verif/seeded/$s/patch.diff; [ -f /verif/seeded/$s/patch.current.diff ] && pf=/verif/seeded/$s/patch.current.diff
+  if ! git -C /repo apply --recount --check $pf 2>/dev/null; then echo "$s: patch does not apply to current /repo"; continue; fi
+  git -C /repo apply --recount $pf
   if grep -q "\"property_id\": \"$prop\"" /verif/MANIFEST.json; then
     cp /verif/evidence/$prop.json /verif/out/.evidence.$prop.bak 2>/dev/null  # evidence describes the unchanged tree: keep it
     out=$(/verif/bin/check $prop --tier quick 2>&1); rc=$?
@@ -19,5 +20,5 @@ for s in $seeds; do
   else
     echo "$s: property $prop not claimed"
   fi
-  git -C /repo checkout -- . ; git -C /repo reset -q
+  git -C /repo reset -q --hard HEAD
 done
